@@ -27,6 +27,7 @@ class PropertyCheck:
     model_imports: list[str] = []      # modules needed to *run* the model
     run_expr = ""                      # Gallina: input -> list Z
     case_preamble = ""
+    case_type = None                   # Gallina type of a model input (needed when literals are ambiguous)
     shard = 400
     assumptions: list[str] = []
     rule = ""
@@ -173,9 +174,10 @@ def run_check(chk: PropertyCheck, tier: str) -> int:
             zc = [(chk.model_input(c), chk.obs_to_z(c, o)) for c, o in results]
             try:
                 bad_idx, _ = run_cases_in_coq(chk.pid, chk.model_imports, chk.run_expr, zc,
-                                              shard=chk.shard, preamble=chk.case_preamble)
+                                              shard=chk.shard, preamble=chk.case_preamble, in_ty=chk.case_type)
             except RuntimeError as e:
                 bad_idx = []
+                zc = []
                 proof_broken = proof_broken or ("cases evaluation", str(e)[-800:])
             rep.cov["traces_validated_against_impl"] = len(zc) - len(bad_idx)
             rep.cov["disagreements"] = len(bad_idx)
